@@ -9,3 +9,24 @@ let () =
       else if after <> "1" then Viol (Printf.sprintf "after a %s-side handshake whose %s callback panicked (and was recovered by the application) later handshakes of the process no longer see the results they see alone (pooled reader / writer returned twice or left dirty)" side point)
       else Pass (panicked = "1")
     | _ -> Diff "malformed line")
+
+let () =
+  (* NFC: frame constructors *)
+  register "NFC" (fun i o -> match i, o with
+    | [ctor; fin; p], [ffin; rsv; op; masked; len; payload; comp] ->
+      let want_op = match ctor with
+        | "frame1" | "text" -> "1" | "frame2" | "binary" -> "2" | "frame0" -> "0" | "ping" -> "9" | "pong" -> "10" | "close" -> "8" | _ -> "?" in
+      let want_fin = if String.length ctor >= 5 && String.sub ctor 0 5 = "frame" then fin else "1" in
+      let pb = bytes_of_hex p in
+      let n = List.length pb in
+      if ffin <> want_fin || op <> want_op || rsv <> "0" || masked <> "0" then Viol ("frame constructor " ^ ctor ^ ": wrong FIN / opcode / reserved bits / mask flag")
+      else if int_of_string len <> n then Viol ("frame constructor " ^ ctor ^ ": Header.Length is not the length of the payload given")
+      else if bytes_of_hex payload <> pb then Viol ("frame constructor " ^ ctor ^ ": payload is not the bytes given")
+      else begin
+        let h = { Check.h_fin = (want_fin = "1"); h_rsv = BinNums.N0; h_op = n_of_int (int_of_string want_op); h_masked = false;
+                  h_mask = Frame.zero_mask; h_len = z_of_int n } in
+        match Frame.write_header h with
+        | Datatypes.Coq_inr hb -> if bytes_of_hex comp = hb @ pb then Pass (n > 0) else Viol ("frame constructor " ^ ctor ^ ": compiled frame is not header codec ++ payload")
+        | _ -> Diff "model encoder refuses the header"
+      end
+    | _ -> Diff "malformed line")
